@@ -2017,7 +2017,13 @@ class FilesystemSecurityContext(
         if self.replay_window_persisted:
             # Just remove the sequence numbers once from the file
             self.replay_window_persisted = False
-            self._store()
+            try:
+                self._store()
+            except BaseException:
+                # The file still holds the old window: the next change has
+                # to try again
+                self.replay_window_persisted = True
+                raise
 
     def post_seqnoincrease(self):
         if self.sender_sequence_number > self.sequence_number_persisted:
